@@ -103,9 +103,10 @@ class Env:
         fggs = import_repo()
         import torch
         import gc
-        # object deaths must not depend on process history: collect now, then only reference counting frees objects
-        # during the run (cyclic garbage -- e.g. caught exceptions holding their frames -- waits for the next run)
-        gc.collect()
+        # object deaths must not depend on process history: only reference counting frees objects during a run; the
+        # cyclic collector (whose timing depends on what the process did before) is off while a run is in progress and
+        # is invoked by the worker between runs (cyclic garbage -- e.g. caught exceptions holding their frames and, through
+        # them, Nodes whose ids would become reusable -- waits until then)
         self._gc_was_enabled = gc.isenabled()
         gc.disable()
         self.torch = torch
